@@ -36,6 +36,13 @@ def cases(draw):
             cfg["allow_redundant_or"] = True
     target = draw(common.target_spec(g))
     thr = draw(st.sampled_from([0, 0, 0, 0.5, 1 / 3, 2 / 3, 1]))
+    if not bn and draw(st.integers(0, 4)) == 0:
+        # shape-map targets (first clause only): shape-map shapes can be empty, which is when the clean-up of references runs
+        from . import c10
+        n = draw(st.integers(1, 3))
+        target = {"mode": "sm", "with_all": draw(st.booleans()),
+                  "items": [{"sel": draw(c10.selector(g)) if draw(st.integers(0, 3)) else {"kind": "node", "iri": "http://ex.org/nothing"},
+                             "label": "<http://sh.org/S%d>" % i, "styles": draw(st.lists(st.integers(0, 1), min_size=4, max_size=4))} for i in range(n)]}
     return {"g": g, "cfg": cfg, "target": target, "thr": thr}
 
 
@@ -50,7 +57,83 @@ def entry_view(e):
     return (e["kinds"], e["card"], (e["figure"] or {}).get("n"), (e["figure"] or {}).get("ratio"), sorted(map(str, e["facts"])))
 
 
+def check_sm(case):
+    """shape-map targets: inverse_paths leaves instance counts and outgoing constraints as they are (first clause).
+    Scope: a shape-map shape whose nodes have only incoming links EXISTS only with inverse paths (without them it has no
+    constraint and is removed, together with every reference to it).  Outgoing constraints that mention such a shape cannot be 'as
+    without inverse paths' by construction - the property is about class shapes, which always exist - so they are left out of the
+    comparison; everything else must be identical, no shape may lose anything else, and no key may be printed twice."""
+    from .. import selectors
+    from . import c10
+    sm = case["target"]
+    kw, triples = common.base_kwargs(dict(case, target={"mode": "all"}))
+    for it in sm["items"]:
+        if any(a_[0] != "iri" for a_ in selectors.evaluate(it["sel"], triples)):
+            return discard("non-iri-answer")
+    if not sm["with_all"]:
+        kw.pop("all_classes_mode", None)
+    kw["shape_map_raw"] = "\n".join("%s@%s" % (selectors.render(it["sel"], c10.NSD, it["styles"]), it["label"]) for it in sm["items"])
+    kw["namespaces_dict"] = dict(c10.NSD)
+    inst_prop = case["g"]["inst_prop"]
+    outs = []
+    for inv in (True, False):
+        text, crash = sut.shex(dict(kw, inverse_paths=inv), acceptance_threshold=case["thr"])
+        if crash is not None:
+            return discard("crash:" + crash.bucket)
+        outs.append(text)
+    try:
+        a, b = oracle.read_all(outs, inst_prop)
+    except oracle.OneSided as e:
+        return violation(str(e), (), True)
+    except oracle.shexc.ShExCError:
+        return discard("unparsable-output")
+    if "__dup_labels__" in a or "__dup_labels__" in b:
+        return discard("label-collision")
+    labels = {"shape-map"}
+    if len(b) < len(sm["items"]) + (1 if sm["with_all"] else 0):
+        labels.add("shape-removed")
+    only_with_inverse = {lab for lab in a if lab not in b}
+
+    def mentions_inverse_only_shape(e):
+        refs = {k[1] for k in e["kinds"] if k[0] == "ref"} | {f[0][1] for f in e["facts"] if f[0][0] == "ref"}
+        return bool(refs & only_with_inverse)
+    viol = []
+    for lab in set(a) | set(b):
+        if lab in a and a[lab].dups:
+            viol.append("%s: constraint keys printed twice with inverse_paths: %s" % (lab, a[lab].dups[:2]))
+        if lab not in a:
+            viol.append("shape %s exists without inverse_paths but not with it" % lab)
+            continue
+        out_a = {k: e for k, e in a[lab].cons.items() if k[0][0] == "d"}
+        if lab not in b:
+            rest = [k for k, e in out_a.items() if not mentions_inverse_only_shape(e)]
+            if rest:
+                viol.append("shape %s has outgoing constraints %s with inverse_paths but does not exist without it" % (lab, rest[:2]))
+            else:
+                labels.add("shape-only-with-inverse-paths")
+            continue
+        if a[lab].n != b[lab].n:
+            viol.append("%s: instance count %s with inverse_paths, %s without" % (lab, a[lab].n, b[lab].n))
+        out_b = {k: e for k, e in b[lab].cons.items() if k[0][0] == "d"}
+        for k in set(out_a) | set(out_b):
+            if k in out_a and mentions_inverse_only_shape(out_a[k]):
+                labels.add("constraint-mentions-inverse-only-shape")
+                continue
+            va = entry_view(out_a[k]) if k in out_a else None
+            vb = entry_view(out_b[k]) if k in out_b else None
+            if va != vb:
+                viol.append("%s: outgoing constraint %s changed by inverse_paths: %s vs %s" % (lab, k, va, vb))
+    nt = any(k[0][0] == "i" for lab in a if lab != "__dup_labels__" for k in a[lab].cons)
+    if nt:
+        labels.add("nontrivial")
+    if viol:
+        return violation("; ".join(viol[:3]) + "\nshape map:\n%s\n--- inverse ---\n%s\n--- without ---\n%s" % (kw["shape_map_raw"], outs[0], outs[1]), labels, nt)
+    return ok(labels, nt)
+
+
 def check(case):
+    if case["target"]["mode"] == "sm":
+        return check_sm(case)
     kw, triples = common.base_kwargs(case)
     cfg = case["cfg"]
     inst_prop = case["g"]["inst_prop"]
